@@ -1,3 +1,5 @@
+// Code generated from check3.go by gen_check2.py; DO NOT EDIT.
+
 package main
 
 import (
@@ -36,6 +38,16 @@ type subject2 struct {
 	quiet     bool    // derived field: no per-region / per-kind counters
 	// after runs extra API-specific clauses at a decided query.
 	after func(c *vlib.Case, p C2, refSD, tol float64)
+	// baseOK, for a derived field, reports whether the library's base field is
+	// itself right at the (reference-frame) query; where it is not, the derived
+	// clauses are not decided, so that a defect of a primitive is reported
+	// under the primitive's keys only.
+	baseOK func(p C2) bool
+	// zoneKey, if set, is the clause under which a distance error is reported
+	// that is only covered by the extra tolerance (a coded numerical guard of
+	// the base shape that is itself a finding); derived fields leave it empty
+	// so that one root cause is reported once.
+	zoneKey string
 }
 
 func (s *subject2) init() {
@@ -59,8 +71,9 @@ func (s *subject2) witness(p C2, more map[string]interface{}) map[string]interfa
 }
 
 // check2 evaluates every clause the subject supports at reference-frame query
-// p0 and returns the library's SDF value (NaN if the query was skipped).
-func check2(c *vlib.Case, s *subject2, p0 C2, kind string) float64 {
+// p0 and returns the library's SDF value (NaN if the query was skipped) and
+// whether the distance clause held there.
+func check2(c *vlib.Case, s *subject2, p0 C2, kind string) (float64, bool) {
 	e := s.ref.Eval(p0)
 	p := p0
 	if s.mapQuery != nil {
@@ -71,11 +84,15 @@ func check2(c *vlib.Case, s *subject2, p0 C2, kind string) float64 {
 	if s.skip != nil {
 		if why := s.skip(p0, refSD); why != "" {
 			c.Undecided(why)
-			return math.NaN()
+			return math.NaN(), false
 		}
 	}
 	if !fin2(p) || !fin(refSD) {
-		return math.NaN()
+		return math.NaN(), false
+	}
+	if s.baseOK != nil && !s.baseOK(p0) {
+		c.Undecided("derived-field:base-field-already-wrong-at-this-query")
+		return math.NaN(), false
 	}
 	abs := absTolK*s.scale*k + absTolK*g.MaxAbs2(p)
 	extra := 0.0
@@ -93,9 +110,11 @@ func check2(c *vlib.Case, s *subject2, p0 C2, kind string) float64 {
 	c.Count(s.tag+".SDF.calls", 1)
 	if !fin(sd) {
 		c.Violation(s.api+".SDF/finite", fmt.Sprintf("SDF returned %v, reference %.17g", sd, refSD), s.witness(p, nil))
-		return sd
+		return sd, false
 	}
+	distOK := true
 	if diff := math.Abs(math.Abs(sd) - math.Abs(refSD)); diff > tol {
+		distOK = false
 		c.Violation(s.api+".SDF/distance", fmt.Sprintf("|SDF|=%.17g but the Euclidean distance to the boundary is %.17g (diff %.3g > tol %.3g, nearest piece %s)", math.Abs(sd), math.Abs(refSD), diff, tol, e.Region),
 			s.witness(p, map[string]interface{}{"sdf": g.Hex(sd), "reference": g.Hex(refSD), "region": e.Region}))
 	} else {
@@ -104,6 +123,10 @@ func check2(c *vlib.Case, s *subject2, p0 C2, kind string) float64 {
 			c.Max(s.tag+".worst_distance_error_over_tolerance", diff/base)
 		} else {
 			c.Count(s.tag+".SDF.distance_ok_only_with_extra_tolerance", 1)
+			if s.zoneKey != "" {
+				c.Violation(s.api+s.zoneKey, fmt.Sprintf("|SDF|=%.17g but the Euclidean distance to the boundary is %.17g (relative error %.3g; nearest piece %s)", math.Abs(sd), math.Abs(refSD), diff/math.Abs(refSD), e.Region),
+					s.witness(p, map[string]interface{}{"sdf": g.Hex(sd), "reference": g.Hex(refSD), "region": e.Region}))
+			}
 		}
 	}
 	signDecided := math.Abs(refSD) > 2*tol
@@ -193,7 +216,7 @@ func check2(c *vlib.Case, s *subject2, p0 C2, kind string) float64 {
 	if s.after != nil {
 		s.after(c, p, refSD, tol)
 	}
-	return sd
+	return sd, distOK
 }
 
 // checkNormal2 decides the outward-normal clause only where the reference
@@ -221,6 +244,10 @@ func checkNormal2(c *vlib.Case, s *subject2, p C2, e g.RefEval2, n C2) {
 		return
 	}
 	c.Count("oracle.normal_selfcheck_ok", 1)
+	c.Count(s.tag+".NormalSDF.outward_decided", 1)
+	if !s.quiet {
+		c.Count(s.tag+".NormalSDF.outward_decided."+e.Region, 1)
+	}
 	if d := g.Len2(g.Sub2(n, e.Normal)); d > normalTol {
 		c.Violation(s.api+".NormalSDF/outward-normal", fmt.Sprintf("normal %v differs from the outward unit normal %v of the %s at the nearest point by %.3g (= -grad of the distance field by central differences: %v)", n, e.Normal, e.Region, d, g.Scale2(grad, -1)),
 			s.witness(p, map[string]interface{}{"normal_hex": hx2(n), "reference_normal": dec2(e.Normal), "region": e.Region}))
@@ -255,27 +282,6 @@ func boundaryBound2(c *vlib.Case, s *subject2, p C2, sd float64, rng *rand.Rand,
 		}
 	}
 	c.Count(s.tag+".SDF.boundary_samples_ok", int64(n))
-}
-
-// onBoundary2 checks that the field is ~0 at a parametrised boundary point.
-func onBoundary2(c *vlib.Case, s *subject2, rng *rand.Rand) {
-	if s.mapQuery != nil {
-		return
-	}
-	b := s.ref.Boundary(rng)
-	if s.skip != nil && s.skip(b, 0) != "" {
-		return
-	}
-	sd := s.sdf.SDF(b)
-	tol := 4*absTolK*(s.scale+g.MaxAbs2(b)) + 1e-9*s.ref.Size()
-	if s.extra != nil {
-		tol += s.extra(b, 0)
-	}
-	if !(math.Abs(sd) <= tol) {
-		c.Violation(s.api+".SDF/zero-on-boundary", fmt.Sprintf("SDF=%.17g at a boundary point (tol %.3g)", sd, tol), s.witness(b, nil))
-	} else {
-		c.Count(s.tag+".SDF.zero_on_boundary_ok", 1)
-	}
 }
 
 // lipschitz2 checks |f(a)-f(b)| <= |a-b| (reference-free).
@@ -339,11 +345,17 @@ func runSubject2(c *vlib.Case, s *subject2, nq int) {
 	regions := map[string]bool{}
 	for i := 0; i < nq; i++ {
 		p, kind := query2(rng, s.ref)
-		sd := check2(c, s, p, kind)
+		sd, ok := check2(c, s, p, kind)
 		if math.IsNaN(sd) {
 			continue
 		}
 		regions[s.ref.Eval(p).Region] = true
+		if !ok {
+			// already reported against the reference; the reference-free
+			// clauses below would only repeat it under more keys
+			havePrev = false
+			continue
+		}
 		boundaryBound2(c, s, p, sd, rng, 3)
 		// Lipschitz: against the previous query and against a close neighbour
 		if havePrev {
@@ -355,13 +367,10 @@ func runSubject2(c *vlib.Case, s *subject2, nq int) {
 		if s.mapQuery != nil {
 			q2 = s.mapQuery(p2)
 		}
-		if s.skip == nil || s.skip(p2, s.ref.Eval(p2).SD*s.distScale) == "" {
+		if (s.skip == nil || s.skip(p2, s.ref.Eval(p2).SD*s.distScale) == "") && (s.baseOK == nil || s.baseOK(p2)) {
 			lipschitz2(c, s, p, p2, sd, s.sdf.SDF(q2))
 		}
 		prev, prevSD, havePrev = p, sd, true
-		if i%4 == 0 {
-			onBoundary2(c, s, rng)
-		}
 	}
 	if len(regions) >= 2 {
 		c.Nontrivial(fmt.Sprint(s.api, s.params))
